@@ -5,6 +5,7 @@ import PMV.Proofs.ParenGram
 import PMV.Proofs.Spacing
 import PMV.Proofs.Numbers
 import PMV.Proofs.LayoutTable
+import PMV.Proofs.LayoutPlain
 /-
   C02 — Printed source re-parses to exactly the same syntax tree.
   Proved here, for every well-formed expression tree of the modelled AST (unbounded depth):
@@ -70,6 +71,15 @@ theorem layout_as_specified (m : Module) (hok : Spec.Layout.okL Generated.precTa
       = Spec.Layout.emitModule Generated.precTable Generated.stmtTable m :=
   Spec.Layout.module_layout _ _ stmt_table_ok m hok
 
+/-- T02.4, syntactic side condition: expression tokens never contain a layout token (`flat_nlay`, mutual induction over the
+    expression printer), so `okL` holds as soon as no `yield` is visited as a statement inside a header or a pattern (type
+    alias name, annotated name, pattern value / class — positions where the grammar admits none) and every expression
+    statement prints at least one token (`plainL`). -/
+theorem layout_as_specified_plain (m : Module) (h : Spec.Layout.plainL Generated.precTable m.body = true) :
+    Spec.Layout.machineLayout (moduleToks Generated.precTable Generated.stmtTable m)
+      = Spec.Layout.emitModule Generated.precTable Generated.stmtTable m :=
+  layout_as_specified m (Spec.Layout.okL_of_plain _ _ m.body h)
+
 /-- T02.5 (characters): when moreover no token text ends in a character that `newline` strips or is empty (`textOK`),
     the printed text is the concatenation of the characters of a list of layout tokens (a token with the space the spacing
     rule puts before it; a line break followed by `depth` tabs; a `;`) which, spacing forgotten, is the specified layout. -/
@@ -109,6 +119,7 @@ def layoutWitness : Module := ⟨[
   .expr (.name "g" .load), .expr (.name "h" .load)]⟩
 
 example : Spec.Layout.okL Generated.precTable Generated.stmtTable layoutWitness.body = true := by decide +kernel
+example : Spec.Layout.plainL Generated.precTable layoutWitness.body = true := by decide +kernel
 example : (moduleToks Generated.precTable Generated.stmtTable layoutWitness).all Spec.Layout.textOK = true := by decide +kernel
 example : Token.render Generated.spacing (moduleToks Generated.precTable Generated.stmtTable layoutWitness)
     = "a\nif b:c;pass\nelif d:\n\twhile e:break\n\telse:continue;pass\nelse:f\ng\nh" := by decide +kernel
